@@ -175,6 +175,19 @@ pub fn install_panic_hook() {
     }));
 }
 
+/// If a panic was recorded on this thread (e.g. inside a spawned task, where tokio catches it),
+/// turn it into a violation (code under test) or a harness error (anything else).
+pub fn recorded_panic() -> Option<Violation> {
+    let loc = PANIC_LOC.with(|p| p.borrow_mut().take())?;
+    let (place, msg) = loc.split_once('|').unwrap_or((&loc, ""));
+    if let Some(idx) = place.find("/repo/src/") {
+        let rel = &place[idx + "/repo/".len()..];
+        Some(Violation::new(format!("panic/{rel}"), format!("panic at {place}: {msg}")))
+    } else {
+        Some(Violation::new("harness/panic", format!("panic outside the code under test at {place}: {msg}")))
+    }
+}
+
 pub enum RunResult {
     Ok,
     Violation(Violation),
@@ -199,6 +212,14 @@ pub fn exec_guarded<S: Scenario>(s: &S, plan: &S::Plan, cx: &mut Cx) -> RunResul
         *cx.probes.entry(k.to_string()).or_insert(0) += v;
     }
     reset_hooks();
+    // a panic inside a spawned task is caught by tokio; it still counts
+    let r = match r {
+        Ok(inner) => match recorded_panic() {
+            Some(v) => Ok(Err(v)),
+            None => Ok(inner),
+        },
+        Err(e) => Err(e),
+    };
     match r {
         Ok(Ok(())) => RunResult::Ok,
         Ok(Err(v)) => {
